@@ -167,6 +167,16 @@ def struct_templates():
     t.append("def test(a: Qint[2], b: Qint[2]) -> Tuple[Qint[2], Qint[2]]:\n    return (b, a)")
     t.append("def test(a: bool, b: bool) -> Tuple[bool, bool, bool]:\n    return (a, b, a)")
     t.append("def test(a: bool, b: bool) -> bool:\n    c = a\n    return c")
+    # parameters and locals whose names are the ones the synthesiser gives its own qubits (anc_N, TRUE, FALSE)
+    # or start like the return bits (_retval)
+    t.append("def test(a: bool, anc_1: bool, c: bool) -> bool:\n    t = c ^ (a or (anc_1 and not a))\n    return (t and a) ^ (t or anc_1)")
+    t.append("def test(anc_0: bool, anc_1: bool, anc_2: bool) -> bool:\n    t = anc_2 ^ (anc_0 or (anc_1 and not anc_0))\n    return (t and anc_0) ^ (t or anc_1)")
+    t.append("def test(a: bool, b: bool, c: bool) -> bool:\n    anc_0 = a and b\n    t = c ^ (a or (anc_0 and not a))\n    return (t and a) ^ (t or anc_0)")
+    t.append("def test(TRUE: bool, b: bool) -> Tuple[bool, bool]:\n    return (True, b and TRUE)")
+    t.append("def test(FALSE: bool, b: bool) -> Tuple[bool, bool]:\n    return (False, b or FALSE)")
+    t.append("def test(a: bool, b: bool) -> Tuple[bool, bool, bool]:\n    TRUE = a and b\n    return (True, TRUE, not TRUE)")
+    t.append("def test(a: bool, b: bool) -> bool:\n    _retval = a or b\n    return not _retval")
+    t.append("def test(a: bool, b: bool, c: bool) -> Tuple[bool, bool]:\n    _retx = a and b\n    _ret0 = _retx ^ c\n    return (_ret0 or _retx, _retx)")
     return t
 
 
